@@ -1,5 +1,6 @@
 use crate::common::Emitter;
 pub mod c13;
+pub mod c14;
 
 /// run one case line (from a replay file or the corpus) against the implementation
 pub fn replay(prop: &str, line: &str, em: &mut Emitter) {
@@ -7,13 +8,25 @@ pub fn replay(prop: &str, line: &str, em: &mut Emitter) {
     if toks.is_empty() { return; }
     match toks[0] {
         "tpkt_read" | "x224_read" => c13::run_case(&toks, em),
+        "tpkt_write" | "x224_write" => c14::run_case(&toks, em),
         _ => { let _ = prop; eprintln!("unknown op {}", toks[0]); }
     }
 }
 
 pub fn generate(prop: &str, thorough: bool, seed: u64, em: &mut Emitter) {
+    let part = part();
     match prop {
-        "C13" => c13::generate(thorough, seed, em),
+        "C13" => c13::generate(thorough, seed, part, em),
+        "C14" => c14::generate(thorough, seed, part, em),
         _ => { eprintln!("unknown property {}", prop); std::process::exit(2); }
+    }
+}
+
+/// VERIF_PART=k/n : this process is slice k of n parallel slices (exhaustive sweeps are split,
+/// deterministic preambles run in slice 0 only)
+pub fn part() -> (usize, usize) {
+    match std::env::var("VERIF_PART") {
+        Ok(s) => { let v: Vec<usize> = s.split('/').map(|x| x.parse().unwrap_or(0)).collect(); if v.len() == 2 && v[1] > 0 { (v[0], v[1]) } else { (0, 1) } }
+        Err(_) => (0, 1),
     }
 }
